@@ -41,7 +41,8 @@ OnOblig(e) ==
           \cup (IF e.err = "" /\ ~e.rest_equal THEN {<<l, "changedelse">>} ELSE {}))
 OnAcl(e) ==
   LET final == IF e.bypass THEN e.value ELSE AclMap(e.value)
-      mustDeny == final \notin Allowed
+      \* "fillbad": every other namespace field of the messages on the path holds a forbidden name (combination clause)
+      mustDeny == final \notin Allowed \/ (e.variant = "fillbad" /\ e.siblings > 0)
       bad == e.err # "" \/ e.denied # mustDeny \/ (e.denied /\ e.forwarded) \/ (~e.denied /\ ~e.forwarded)
              \/ (e.forwarded /\ e.seen # final)
   IN FlagAll(IF bad THEN {<<l, "acl">>} ELSE {})
